@@ -16,6 +16,38 @@ from .facts import callee
 from .flow import PathExprBuilder, enumerate_paths, canon, walk, fmt_expr
 
 CONSUMING = ("advance", "copy_to_slice", "copy_to_bytes")
+IO_PARTIAL = ("read_exact", "read_to_end", "read_to_string", "read_buf_exact")
+
+
+def nosite(e):
+    """two calls of a caller-supplied observer with the same arguments denote the same value here (nothing moves between the test and
+    the construction of the error; C9 checks that)"""
+    if not isinstance(e, tuple) or not e:
+        return e
+    if e[0] == "ucall":
+        return ("ucall", e[1], tuple(nosite(a) for a in e[2]))
+    if e[0] == "cast":
+        return nosite(e[2])
+    return tuple(nosite(x) if isinstance(x, tuple) else x for x in e)
+
+
+def known_short(A, R, rels):
+    """is `A < R` among (or immediate from) the relations of the path?"""
+    a, r = nosite(canon(A)), nosite(canon(R))
+    if isinstance(a, tuple) and isinstance(r, tuple) and a[0] == "const" and r[0] == "const" and isinstance(a[1], int) and isinstance(r[1], int):
+        return a[1] < r[1]
+    for rel in rels:
+        if not rel or len(rel) < 3 or not isinstance(rel[1], tuple) or not isinstance(rel[2], tuple):
+            continue
+        x, y = nosite(canon(rel[1])), nosite(canon(rel[2]))
+        if rel[0] == "lt" and x == a and y == r:
+            return True
+        if rel[0] == "ne" and a == ("const", 0) and ((x == r and y == ("const", 0)) or (y == r and x == ("const", 0))):
+            return True
+        if rel[0] == "lt" and a == ("const", 0) and x == ("const", 0) and y == r:
+            return True
+    # available = remaining() with has_remaining() == false known, requested a positive literal
+    return False
 
 
 def rooted_at_self(e, b=None):
@@ -38,6 +70,8 @@ def run(facts):
         n += 1
         bad = None
         bad_ok = None
+        short_bad = None
+        n_errs = 0
         n_err = 0
         # does the function consume at all by itself (or is it a pure forwarder)?
         has_consumer = False
@@ -54,6 +88,7 @@ def run(facts):
             pe = PathExprBuilder(b, facts, path, inline=False)
             pos = {bb: i for i, bb in enumerate(path)}
             consumes = []           # (index in path, description)
+            io_partial = []         # (index, name) of io::Read calls on self that consume also when they fail
             fallible = []           # (index, dest local, description)
             branches = {}           # dest local of the fallible call -> (index of the branch, taken arm)
             for i, pb in enumerate(path):
@@ -90,6 +125,9 @@ def run(facts):
                     d = t["dest"]
                     dl = d["l"] if isinstance(d, dict) and not d.get("p") else None
                     fallible.append((i, dl, nm))
+                elif nm in IO_PARTIAL and "io::" in ((fn.get("res") or fn).get("path", "") + str(fn.get("trait") or "")):
+                    # std's Read::read_exact & co. leave the reader wherever they stopped when they fail (io::Cursor: at the end)
+                    io_partial.append((i, nm))
             # classify the fallible calls on this path
             fail_at = None          # index in path where the failure that is returned originates
             for (i, dl, nm) in fallible:
@@ -117,6 +155,11 @@ def run(facts):
                     elif fail_at is None or br[0] < fail_at[0]:
                         fail_at = (i, "`%s` failed and its error is propagated" % nm)
             e = canon(pe.local(0, (path[-1], len(b.blocks[path[-1]]["stmts"]))))
+            if io_partial and bad is None:
+                # the result of the io call is what the function returns (possibly through map_err): a failure has already moved the cursor
+                from .flow import walk as _walk
+                if any(isinstance(x, tuple) and x and x[0] in ("call", "ucall") and str(x[1]).rsplit("::", 1)[-1] in IO_PARTIAL for x in _walk(e)):
+                    bad = (path, [(io_partial[0][0], "io::Read::%s (which consumes what it could read before failing)" % io_partial[0][1])], (io_partial[0][0] + 1, "its error is handed back"))
             own_err = isinstance(e, tuple) and e and e[0] == "agg" and isinstance(e[1], tuple) and str(e[1][1]).endswith("::Err")
             if own_err and fail_at is None:
                 # where was the Err built? the last block on the path that constructs it
@@ -126,6 +169,20 @@ def run(facts):
                         break
                 if fail_at is None:
                     fail_at = (len(path) - 1, "an Err is returned")
+            if own_err and short_bad is None:
+                # the error says "requested R, only A available": on the path that builds it, A < R must be known
+                for i in range(len(path) - 1, -1, -1):
+                    for si, st_ in enumerate(b.blocks[path[i]]["stmts"]):
+                        if st_["k"] == "assign" and st_["rv"]["k"] == "agg" and str(st_["rv"].get("adt", "")).endswith("TryGetError"):
+                            f = dict(zip(st_["rv"]["fields"], st_["rv"]["ops"]))
+                            if "requested" in f and "available" in f:
+                                R = canon(pe.operand(f["requested"], (path[i], si)))
+                                A = canon(pe.operand(f["available"], (path[i], si)))
+                                from .flow import path_relations
+                                rels = path_relations(b, facts, path)
+                                n_errs += 1
+                                if not known_short(A, R, rels):
+                                    short_bad = (path, A, R)
             if fail_at is None:
                 # a path that hands out a value: Ok(..) built here must come after exactly one consuming step
                 own_ok = isinstance(e, tuple) and e and e[0] == "agg" and isinstance(e[1], tuple) and str(e[1][1]).endswith("::Ok")
@@ -139,11 +196,53 @@ def run(facts):
         if bad_ok and not bad:
             res.bad("%s|Ok consumes exactly once" % b.id, b.loc(), "on the path bb%s a value is returned after %d consuming steps (%s): the cursor must advance by exactly the bytes read, once" % (
                 "->bb".join(str(x) for x in bad_ok[0]), len(bad_ok[1]), ", ".join(c[1] for c in bad_ok[1]) or "none"))
+        if n_errs:
+            k2 = "%s|Err only when short" % b.id
+            if short_bad:
+                res.bad(k2, b.loc(), "on the path bb%s Err(TryGetError { requested: %s, available: %s }) is built although available < requested is not known there: "
+                                     "a request that the buffer can serve (e.g. a zero-width read of an exhausted buffer) is refused" % (
+                                         "->bb".join(str(x) for x in short_bad[0]), fmt_expr(short_bad[2])[:40], fmt_expr(short_bad[1])[:40]))
+            else:
+                res.ok(k2, b.loc(), "every TryGetError is built under available < requested", nontrivial=True)
         key = "%s|Err leaves the cursor untouched" % b.id
         if bad:
             res.bad(key, b.loc(), "on the path bb%s %s after %s has already consumed bytes: the caller gets Err but the cursor has moved" % (
                 "->bb".join(str(x) for x in bad[0]), bad[2][1], ", ".join(sorted(set(c[1] for c in bad[1])))))
         else:
             res.ok(key, b.loc(), "%d path(s) can end in Err, none after a consuming call" % n_err, nontrivial=n_err > 0)
+    # the panicking counterparts (`get_*`, `put_*`, `advance*`, `copy_to_slice`, ..): the TryGetError handed to panic_advance says
+    # "requested R, only A available" - where it is built, A < R must be known, otherwise a request that fits is refused with a panic
+    from .flow import relations_at, ExprBuilder
+    n_pan = 0
+    for b in facts.fn_bodies():
+        if facts.is_test(b) or b.kind not in ("fn", "assoc_fn", "closure"):
+            continue
+        name = b.id.rsplit("::", 1)[-1]
+        out = str(b.j.get("output") or (b.locals[0]["ty"] if b.locals else ""))
+        if (name.startswith("try_") or b.kind == "closure") and "TryGetError" in out:
+            continue            # judged above, path by path
+        eb = None
+        cnt = 0
+        for bi, blk in enumerate(b.blocks):
+            if blk["cleanup"]:
+                continue
+            for si, st_ in enumerate(blk["stmts"]):
+                if st_["k"] == "assign" and st_["rv"]["k"] == "agg" and str(st_["rv"].get("adt", "")).endswith("TryGetError"):
+                    f = dict(zip(st_["rv"]["fields"], st_["rv"]["ops"]))
+                    if "requested" not in f or "available" not in f:
+                        continue
+                    eb = eb or ExprBuilder(b, facts, inline=False)
+                    R = canon(eb.operand(f["requested"], (bi, si)))
+                    A = canon(eb.operand(f["available"], (bi, si)))
+                    n_pan += 1
+                    cnt += 1
+                    key = "%s|panics only when short%s" % (b.id, "#%d" % cnt if cnt > 1 else "")
+                    rels = relations_at(b, bi, facts, inline=False)
+                    if known_short(A, R, rels):
+                        res.ok(key, b.loc(bi), "TryGetError { requested, available } is built under available < requested", nontrivial=True)
+                    else:
+                        res.bad(key, b.loc(bi), "TryGetError { requested: %s, available: %s } is built (for a panic) although available < requested is not known there: "
+                                                "a request that fits exactly is refused" % (fmt_expr(R)[:40], fmt_expr(A)[:40]))
     res.floor("try_* readers", n, 60)
+    res.floor("panic sites with a TryGetError", n_pan, 10)
     return res
